@@ -9,6 +9,7 @@ require (
 	github.com/gofrs/uuid v4.4.0+incompatible
 	github.com/prometheus/client_golang v1.20.5
 	github.com/prometheus/client_model v0.6.1
+	github.com/spf13/viper v1.19.0
 	github.com/yosida95/uritemplate/v3 v3.0.2
 	go.etcd.io/bbolt v1.4.0
 	go.uber.org/zap v1.27.0
@@ -39,7 +40,6 @@ require (
 	github.com/spf13/afero v1.12.0 // indirect
 	github.com/spf13/cast v1.7.1 // indirect
 	github.com/spf13/pflag v1.0.6 // indirect
-	github.com/spf13/viper v1.19.0 // indirect
 	github.com/subosito/gotenv v1.6.0 // indirect
 	github.com/unrolled/secure v1.17.0 // indirect
 	go.uber.org/multierr v1.11.0 // indirect
